@@ -839,7 +839,11 @@ keyword(vbi_link *ld, uint8_t *p, int column,
 
 	for (j = k = l = 0;;) {
 		// RFC 1738
-		while (isalnum(s[i + j]) || strchr("%&/=?+-~:;@_", s[i + j])) {
+		/* NB strchr() finds the terminating NUL of its first
+		   argument, the row ends with a NUL. */
+		while (isalnum(s[i + j])
+		       || (0 != s[i + j]
+			   && strchr("%&/=?+-~:;@_", s[i + j]))) {
 			j++;
 			l++;
 		}
@@ -862,7 +866,8 @@ keyword(vbi_link *ld, uint8_t *p, int column,
 	k = 0;
 
 	if (ld->type == VBI_LINK_EMAIL) {
-		for (; isalnum(s[k - 1]) || strchr("-~._", s[k - 1]); k--);
+		for (; isalnum(s[k - 1])
+			     || (0 != s[k - 1] && strchr("-~._", s[k - 1])); k--);
 
 		if (k == 0) {
 			ld->type = VBI_LINK_NONE;
